@@ -422,6 +422,9 @@ def judge_b3(chk, traces, meta):
             steps = [s for s, cc in v['viol'] if cc == c]
             chk.violation(sig, dict(trace=t['name'], clause=c, steps=steps, scenario=m))
     chk.cov['tolerance_history_udb'] = 200
+    chk.cov['history_deviation_note'] = ('figures are bit-identical (0 udb on all traces) once the exploration works on a '
+                                         'fresh copy per baud-rate group; non-zero values below are instances of the reported '
+                                         'state leak, those under the tolerance are not flagged')
     chk.cov['measured_history_deviation_udb_on_traces_without_violation'] = int(round(hist_ok * 1e6))
     chk.cov['measured_history_deviation_udb_on_violating_traces'] = int(round(hist_bad * 1e6))
     chk.cov['b3_tlc_wall_s'] = round(wall, 1)
@@ -533,5 +536,6 @@ def _mut_adddrop_at_every_roadm():
 
 
 MUTANTS = {'auto_margin_dropped': _mut_auto_margin_dropped, 'tx_osnr_accumulates': _mut_tx_osnr_accumulates,
-           'update_from_previous': _mut_update_from_previous, 'lowest_bitrate_first': _mut_lowest_bitrate_first,
+           'adddrop_at_every_roadm': _mut_adddrop_at_every_roadm, 'lowest_bitrate_first': _mut_lowest_bitrate_first,
            'reverse_ignored': _mut_reverse_ignored, 'penalty_clamped': _mut_penalty_clamped}
+EXTRA_MUTANTS = {'update_from_previous': _mut_update_from_previous}      # also killed; kept out of the selftest budget
